@@ -122,6 +122,9 @@ impl Property for C03 {
                     plan.items.push(Item::Hint { size: h });
                 }
                 if rng.chance(1, 4) {
+                    plan.items.push(Item::FType { kind: 1 + rng.below(2) as u8 });
+                }
+                if rng.chance(1, 4) {
                     plan.items.push(Item::Open { n: 0, act: Act::Eintr });
                 }
             }
